@@ -1,4 +1,5 @@
 import XjsModel.Proofs.ParserFrame
+import XjsModel.Proofs.ParserEventsPass
 /-
   C16 — Parsing-context queries reflect the real nesting.
 
@@ -91,6 +92,30 @@ example : ∃ r, parseProgram {} [dummyTok] = some r ∧ r.final.ctx = [.global]
     simp [PS.init, PS.cur, dummyTok]
   exact ⟨_, h, rfl⟩
 
+/-! ### the answers are the nesting of the tree -/
+
+/-- the context stack the specification gives an event is the syntactic nesting of its place in the tree: `.function`
+    for every enclosing function body (declaration or expression), `.block` for every enclosing block — so the answers
+    recorded in it are those of the nesting -/
+theorem event_answers_follow_its_stack (isExpr : Bool) (id : Nat) (t : Token) (ctx : List Ctx) :
+    (mkEv isExpr id t ctx).inFunction = ctx.contains .function ∧ (mkEv isExpr id t ctx).ctx = ctx.headD .global ∧
+    (mkEv isExpr id t ctx).stack = ctx ∧ (mkEv isExpr id t ctx).cur = t := ⟨rfl, rfl, rfl, rfl⟩
+
+/-- whenever an interceptor runs during an error-free parse, what `IsInFunction` and `CurrentContext` answer is what the
+    returned tree says about the place of the current token: the whole sequence of events — tokens and answers — is
+    the one computed from the tree alone by `Spec/Events` (a function body pushes `.function`, a block `.block`),
+    and after parsing the stack is back at `[global]`. For every token list, mode, table and interceptor chain. -/
+theorem answers_equal_the_nesting_in_the_tree (cfg : PCfg) (toks : List Token) (r : ParseResult)
+    (h : parseProgram cfg toks = some r) (hok : r.errors = []) :
+    r.final.trace = r.prog.stmtsEv cfg.stmtI cfg.exprI [.global] ∧ r.final.ctx = [.global] :=
+  trace_is_the_tree's cfg toks r h hok
+
+/-! Non-vacuity: the expression statement inside `function f() { a }` is announced with the stack [block, function, global] -/
+example (tf tn tb ta rb : Token) :
+    (StmtList.cons (.funcD tf ⟨tn, tn.lit⟩ [] (.block tb (.cons (.exprS (.ident ⟨ta, ta.lit⟩)) .nil) rb)) .nil).stmtsEv [⟨1⟩] [] [.global] =
+      [mkEv false 1 tf [.global], mkEv false 1 ta [.block, .function, .global]] := by
+  simp [StmtList.stmtsEv, Stmt.innerEv, Expr.innerEv, stepS, stepE, effE, Stmt.firstTok, Expr.firstTok, tokOf]
+
 end Xjs.C16
 
 #print axioms Xjs.C16.statement_balanced
@@ -100,3 +125,4 @@ end Xjs.C16
 #print axioms Xjs.C16.events_faithful
 #print axioms Xjs.C16.events_inside_function_body
 #print axioms Xjs.C16.statement_interceptor_sees_entry_state
+#print axioms Xjs.C16.answers_equal_the_nesting_in_the_tree
